@@ -121,21 +121,32 @@ def build_and_audit(pid: str):
     rc, out = sh(["lake", "build"] + mods, cwd=LEAN, timeout=7200)
     if rc != 0:
         res["log"] += out[-6000:]
-        # map compiler errors to the theorems of the files of this property
-        hit = False
-        for name, line, fpath in thms3:
-            rel = os.path.relpath(fpath, LEAN)
-            errs = [int(m.group(1)) for m in re.finditer(r"error: " + re.escape(rel) + r":(\d+):\d+", out)]
-            if errs:
-                hit = True
-            nxt = min([l for _, l, f in thms3 if f == fpath and l > line] + [10 ** 9])
-            if any(line <= e < nxt for e in errs):
-                res["failed"][name] = "proof does not check"
-        for name, _ in thms:
-            res["failed"].setdefault(
-                name, "file does not build; theorem not audited" if hit
-                else "a module this file imports does not build")
-        return res
+        # build the modules of the property one by one: the theorems of a module that still builds are
+        # audited as usual, those of a module that does not are marked with the reason
+        good = []
+        for mod in mods:
+            rc1, out1 = sh(["lake", "build", mod], cwd=LEAN, timeout=7200)
+            if rc1 == 0:
+                good.append(mod)
+                continue
+            mpath = os.path.join(LEAN, *mod.split(".")) + ".lean"
+            mine = [(n, l) for n, l, f in thms3 if f == mpath]
+            rel = os.path.relpath(mpath, LEAN)
+            errs = [int(m.group(1)) for m in re.finditer(r"error: " + re.escape(rel) + r":(\d+):\d+", out1)]
+            broken_imports = sorted(set(re.findall(r"✖ \[\d+/\d+\] Building (\S+)", out1)) - {mod})
+            for name, line in mine:
+                nxt = min([l for _, l in mine if l > line] + [10 ** 9])
+                if any(line <= e < nxt for e in errs):
+                    res["failed"][name] = "proof does not check"
+                elif errs:
+                    res["failed"][name] = "file does not build; theorem not audited"
+                else:
+                    res["failed"][name] = "a module this file imports does not build" + \
+                        (": " + ", ".join(broken_imports[:4]) if broken_imports else "")
+        thms = [(n, l) for n, l, f in thms3 if "SV.Props." + os.path.splitext(os.path.basename(f))[0] in good]
+        mods = good
+        if not thms:
+            return res
     audit_dir = os.path.join(LEAN, "SV", "Audit")
     os.makedirs(audit_dir, exist_ok=True)
     apath = os.path.join(audit_dir, pid + ".lean")
